@@ -126,12 +126,35 @@ func runC12(p *Prog, l *Ledger) {
 		tk := p.TypeKey(nt)
 		// length accessor: method of the backlog returning an integer from list.Len()
 		var lenFn *ssa.Function
+		var lenCands []*ssa.Function
 		for _, m := range p.MethodsOf(backlogT) {
 			res := m.Signature.Results()
 			if res.Len() != 1 || !isIntegral(res.At(0).Type()) {
 				continue
 			}
 			lenFn = m
+			lenCands = append(lenCands, m)
+		}
+		// several integer accessors (a second one kept for a gauge, say): the one the limiter's own methods call is the one
+		// the admission bound reads
+		if len(lenCands) > 1 {
+			var called []*ssa.Function
+			for _, cand := range lenCands {
+				used := false
+				for _, lm := range p.MethodsOf(nt) {
+					allInstrs(lm, func(ins ssa.Instruction) {
+						if c := p.CallOf(ins); c != nil && c.Static == cand {
+							used = true
+						}
+					})
+				}
+				if used {
+					called = append(called, cand)
+				}
+			}
+			if len(called) > 0 {
+				lenFn = called[len(called)-1]
+			}
 		}
 		if lenFn == nil {
 			l.Infra("%s: the backlog has no length accessor", tk)
